@@ -291,11 +291,25 @@ func (g *histGen) cookieHeader(sid string) string {
 		return ""
 	}
 	name := g.s.w.cfg.cookieName()
-	switch g.s.r.Rng.Intn(6) {
+	// the browser's jar holds whatever other applications of the host put there, joined as the user agent (or a proxy that
+	// re-assembles the header) likes: none of it may hide the session cookie
+	switch g.s.r.Rng.Intn(14) {
 	case 0:
 		return "other=1; " + name + "=" + sid
 	case 1:
 		return name + "=" + sid + "; theme=dark"
+	case 2:
+		return "theme=dark;" + name + "=" + sid // no space after the separator
+	case 3:
+		return name + "=" + sid + ";lang=en;tz=UTC"
+	case 4:
+		return `prefs={"a":1,"b":[2]}; ` + name + "=" + sid // a JSON value
+	case 5:
+		return "a[b]=c; =nameless; flag; " + name + "=" + sid + "; tok=YWJj=="
+	case 6:
+		return "ville=Besançon; " + name + "=" + sid
+	case 7:
+		return "  " + name + "=" + sid + " ;\tx=1"
 	}
 	return name + "=" + sid
 }
@@ -389,7 +403,7 @@ func (g *histGen) step() {
 		}
 		k -= x
 	}
-	base := hReq{Scheme: "https", Host: "app.example.com", Gen: g.newGen(), KeysOK: rng.Intn(100) >= g.p.Faults/2, Faults: g.faults(), Replica: rng.Intn(2)}
+	base := hReq{Scheme: pick(rng, []string{"https", "https", "https", "http", "HTTP"}), Host: "app.example.com", Gen: g.newGen(), KeysOK: rng.Intn(100) >= g.p.Faults/2, Faults: g.faults(), Replica: rng.Intn(2)}
 	if rng.Intn(3) == 0 {
 		// headers a browser, a script or a proxy may add: none of them is the handler's business
 		base.Hdrs = pick(rng, []map[string]string{{"x-requested-with": "XMLHttpRequest"}, {"sec-fetch-dest": "empty", "sec-fetch-mode": "cors", "sec-fetch-site": "same-origin"},
